@@ -104,6 +104,12 @@ def stop_points():
             pts.append(("B", {"i": "B", "kind": "get", "src": "check", "nth": nth, "phase": ph}))
         for nth in (2, 3, 5):
             pts.append(("B", {"i": "B", "kind": "create", "src": "acq", "nth": nth, "phase": ph}))
+        # a takeover-enabled candidate in the middle of its Create / Get / Update sequence
+        # (its first takeover Update loses against a heartbeat, so that the later attempts come from untracked rounds)
+        pts.append(("Bp", {"i": "B", "kind": "create", "src": "acq", "nth": 2, "phase": ph}))
+        for nth in (1, 2, 3):
+            pts.append(("Bp", {"i": "B", "kind": "get", "src": "takeover", "nth": nth, "phase": ph}))
+        pts.append(("Bp", {"i": "B", "kind": "update", "src": "takeover", "nth": 2, "phase": ph}))
     return pts
 
 
@@ -117,11 +123,16 @@ def fam_stop(tier, seed):
         for v in range(len(STOP_VARIANTS)):
             for after in ("none", "restart", "stop2", "late_release"):
                 combos.append((role, m, v, after))
-    chosen = sample(rng, combos, 70 if tier == "quick" else len(combos))
+    chosen = sample(rng, combos, 90 if tier == "quick" else len(combos))
     out = []
     for k, (role, m, v, after) in enumerate(chosen):
         H = rng.choice([500 * MS, 1 * S])
         insts = [inst("A", vi_us=H), inst("B", vi_us=H)]
+        takeover_rule = []
+        if role == "Bp":
+            role = "B"
+            insts = [inst("A", vi_us=H, prio=1), inst("B", vi_us=H, prio=2, takeover=True)]
+            takeover_rule = [{"match": {"i": "B", "kind": "update", "src": "takeover"}, "fault": "fail:conflict", "from_nth": 1, "count": 1}]
         st = dict(STOP_VARIANTS[v])
         st.update({"when": m, "i": role})
         then = []
@@ -144,8 +155,8 @@ def fam_stop(tier, seed):
             st2 = dict(STOP_VARIANTS[(v + 1 + k) % len(STOP_VARIANTS)])
             st2.update({"at": 7 * S + 3 * H, "i": role})
             steps.append(st2)
-        name = "stop-%s-%s%s%d%s-v%d-%s" % (role, m["kind"], m.get("src", ""), m["nth"], m["phase"], v, after)
-        out.append(scn(name, seed * 1000 + k, H, rng.choice([3.0, 5.0]), insts, steps, "stop", end))
+        name = "stop-%s%s-%s%s%d%s-v%d-%s" % (role, "p" if insts[1].get("takeover") else "", m["kind"], m.get("src", ""), m["nth"], m["phase"], v, after)
+        out.append(scn(name, seed * 1000 + k, H, rng.choice([3.0, 5.0]), insts, steps, "stop", end, rules=takeover_rule))
     return out
 
 
@@ -423,7 +434,7 @@ def fam_validate(tier, seed):
         for vod in (False, True):
             for ctx in (0, -1, 300 * MS):
                 combos.append((cls, vod, ctx))
-    chosen = sample(rng, combos, 70 if tier == "quick" else len(combos))
+    chosen = sample(rng, combos, 90 if tier == "quick" else len(combos))
     if tier != "quick":
         chosen = chosen * 2
     for k, (cls, vod, ctx) in enumerate(chosen):
@@ -531,6 +542,11 @@ def fam_regress(tier, seed):
             {"when": {"i": "B", "kind": "get", "src": "takeover", "nth": 2, "phase": "post"}, "do": "start", "i": "C",
              "then": [{"do": "sleep", "us": int(1.6 * H)}]}], "regress", 10 * H + 2 * S, lat=20 * MS, watch=30 * MS,
             rules=[{"match": {"i": "B", "kind": "update", "src": "takeover"}, "fault": "fail:conflict", "from_nth": 1, "count": 1}]))
+        # 8. a heartbeat write applied but answered only after the term has ended and the same instance leads again
+        out.append(scn("reg-late-heartbeat-answer-across-terms-%d" % k, seed * 1000 + k, H, 3.0, [inst("A")], [
+            {"at": 0, "do": "start", "i": "A"},
+            {"when": {"i": "A", "kind": "update", "src": "hb", "nth": 2, "phase": "post"}, "do": "noop",
+             "then": [{"do": "sleep", "us": 1 * S + 3 * H + 3 * H + 1500 * MS}]}], "regress", 14 * H + 6 * S, lat=20 * MS, watch=30 * MS))
         # 2. restart with a round of the previous run still in flight
         out.append(scn("reg-restart-stale-round-%d" % k, seed * 1000 + k, H, ratio, [inst("A"), inst("B")], [
             {"at": 0, "do": "start", "i": "B"}, {"at": H // 10, "do": "start", "i": "A"},
@@ -585,6 +601,61 @@ def fam_witness(tier, seed):
 
 
 FAMILIES["witness"] = fam_witness
+
+
+def fam_slowop(tier, seed):
+    """one slow store operation x one concurrent event: every kind of operation of a leader, a follower and a takeover candidate
+    is held before or after its application for a duration on the lattice {H, TTL/2, TTL+2H, long}, while one event from
+    {nothing, leader stops with delete, outside delete, outside replacement naming the other / the same instance, follower stops,
+    third instance with higher priority starts} happens during the hold."""
+    rng = random.Random(seed * 7919 + 11)
+    points = []
+    for ph in ("pre", "post"):
+        for nth in (1, 2, 3):
+            points.append({"i": "A", "kind": "update", "src": "hb", "nth": nth, "phase": ph})
+        points.append({"i": "A", "kind": "get", "src": "validate", "nth": 1, "phase": ph})
+        points.append({"i": "B", "kind": "watch", "nth": 1, "phase": ph})
+        for nth in (1, 2, 3):
+            points.append({"i": "B", "kind": "get", "src": "check", "nth": nth, "phase": ph})
+        for nth in (2, 4, 5):
+            points.append({"i": "B", "kind": "create", "src": "acq", "nth": nth, "phase": ph})
+        points.append({"i": "B", "kind": "get", "src": "takeover", "nth": 1, "phase": ph})
+        points.append({"i": "B", "kind": "get", "src": "takeover", "nth": 2, "phase": ph})
+        points.append({"i": "B", "kind": "update", "src": "takeover", "nth": 1, "phase": ph})
+    events = ["none", "stopdel_A", "out_del", "out_put:as:B", "out_put:as:A", "stop_B", "start_C"]
+    combos = [(p, d, e) for p in points for d in ("H", "halfTTL", "TTL2H", "long") for e in events]
+    chosen = sample(rng, combos, 90 if tier == "quick" else 900)
+    out = []
+    for k, (pt, dur, evn) in enumerate(chosen):
+        H = rng.choice([500 * MS, 1 * S])
+        ratio = rng.choice([3.0, 3.5, 5.0])
+        ttl = int(ratio * H)
+        prio = pt.get("src") == "takeover" or evn == "start_C" or rng.random() < 0.2
+        insts = [inst("A", prio=1 if prio else 0, vi_us=H), inst("B", prio=2 if prio else 0, takeover=prio, vi_us=H)]
+        if evn == "start_C":
+            insts.append(inst("C", prio=3, takeover=True))
+        d = {"H": H, "halfTTL": ttl // 2, "TTL2H": ttl + 2 * H, "long": ttl + 2 * H + 2 * S}[dur]
+        then = []
+        ev_at = rng.choice([d // 10, d // 3, d // 2])
+        ev_step = {"stopdel_A": {"do": "stopctx", "i": "A", "del": True}, "out_del": {"do": "out_del"},
+                   "out_put:as:B": {"do": "out_put", "cls": "as:B"}, "out_put:as:A": {"do": "out_put", "cls": "as:A"},
+                   "stop_B": {"do": "stop", "i": "B"}, "start_C": {"do": "start", "i": "C"}}.get(evn)
+        if ev_step:
+            then = [{"do": "sleep", "us": ev_at}, ev_step, {"do": "sleep", "us": d - ev_at}]
+        else:
+            then = [{"do": "sleep", "us": d}]
+        steps = [{"at": 0, "do": "start", "i": "A"}, {"at": H // 3, "do": "start", "i": "B"},
+                 {"when": pt, "do": "noop", "then": then}]
+        # later acquisition attempts of B only exist if A goes away at some point
+        if pt["i"] == "B" and pt["kind"] == "create" and pt["nth"] >= 4 and evn != "stopdel_A":
+            steps.append({"at": int(2.2 * H), "do": "stopctx", "i": "A", "del": True})
+        name = "slow-%s-%s%s%d%s-%s-%s-%d" % (pt["i"], pt["kind"], pt.get("src", ""), pt["nth"], pt["phase"], dur, evn.replace(":", "_"), k)
+        out.append(scn(name, seed * 1000 + k, H, ratio, insts, steps, "slowop", 8 * H + d + ttl + 4 * S, lat=int(H * 0.05), watch=int(H * 0.1),
+                       part_timeout_us=2 * S))
+    return out
+
+
+FAMILIES["slowop"] = fam_slowop
 
 
 def generate(family, tier, seed):
